@@ -92,23 +92,32 @@ def guardDrop (m : Mode) : List GuardItem → Bool → Prog Unit Bool
 `MutexRef` / `RwLockReadRef` is dropped; `<locked>` if the try fails. `bomb`: the payload's own
 `Debug` impl panics (user code): the transient hold is released by the `*Ref`'s destructor
 while that panic unwinds (a fault in this release is a panic during unwinding: abort). -/
-def debugLeaf (x : LockId) (m : Mode) (bomb : Bool := false) : Prog Unit Unit :=
+def debugLeaf (x : LockId) (m : Mode) (bomb : Nat := 0) : Prog Unit Unit :=
   op (.acq m false x) fun r =>
     match r with
     | .ok => op (.access x none) fun _ =>
-        if bomb then
+        if bomb = 1 then
           op (.mark mkUserPanic) fun _ => op (.rel m x) fun r' =>
             match r' with | .panic => abort | _ => unwind ()
         else op (.rel m x) fun r' =>
-               match r' with | .panic => unwind () | _ => done ()
+               match r' with
+               | .panic => unwind ()
+               -- bomb = 2: the payload's `Debug` returned `Err(fmt::Error)`; the `*Ref` is dropped
+               -- normally, the error propagates, and `format!` turns it into a panic at the end
+               | _ => if bomb = 2 then op (.mark mkUserPanic) fun _ => unwind () else done ()
     | .no => done ()
     | .panic => unwind ()
+
+/-- which way the payload of leaf `x` misbehaves when formatted: `b = some x` panics,
+`b = some (x + 1000)` returns `Err(fmt::Error)` -/
+def bombKind (b : Option LockId) (x : LockId) : Nat :=
+  if b == some x then 1 else if b == some (x + 1000) then 2 else 0
 
 mutual
 /-- `impl Debug` of every lock and collection type. -/
 def debugFmt (b : Option LockId) : Shape → Prog Unit Unit
-  | .mutex x => debugLeaf x .excl (b == some x)
-  | .rwlock x => debugLeaf x .shared (b == some x)
+  | .mutex x => debugLeaf x .excl (bombKind b x)
+  | .rwlock x => debugLeaf x .shared (bombKind b x)
   | .seq ss => debugFmtL b ss
   | .poisonable _ s => debugFmt b s        -- derived: `inner`, then the flag
   | .boxed _ => done ()                    -- prints the raw pointer field only
